@@ -120,7 +120,7 @@ def run_units(prop, stream, seed, indices, deadline=None, keep_failures=12, want
                 agg["fail_counts"][key] += 1
                 mine = [f for f in agg["failures"] if (f["oracle"], f["known"]) == key]
                 if len(mine) < 3 and len(agg["failures"]) < keep_failures:
-                    agg["failures"].append({"case": case, "oracle": res["oracle"], "known": res.get("known"),
+                    agg["failures"].append({"case": res.get("explicit_case") or case, "oracle": res["oracle"], "known": res.get("known"),
                                             "detail": res["detail"], "unit": i, "stream": stream, "run_seed": rs,
                                             "case_index": ci, "prelude": list(executed[:-1]) if isolate else []})
             if len(agg["samples"]) < 2 and st.get("nontrivial"):
@@ -299,7 +299,7 @@ class Composite(object):
 
 def write_replay(prop, failure, comp, res, seed, execs, minimised):
     os.makedirs(REPLAY_DIR, exist_ok=True)
-    name = "%s-%d-%s-%s-u%d.json" % (prop, seed, failure["stream"], res["oracle"], failure["unit"])
+    name = "%s-%d-%s-%s-u%d%s.json" % (prop, seed, failure["stream"], res["oracle"], failure["unit"], "" if minimised else "-full")
     path = os.path.join(REPLAY_DIR, name)
     with open(path, "w") as f:
         json.dump({"property": prop, "oracle": res["oracle"], "known": res.get("known"), "verif_seed": seed,
@@ -400,8 +400,20 @@ def check(prop, tier, workers=None, units=None, wall_cap=None, selfcheck=True):
             lines.append("  oracle=%s runs_failing=%d detail=%s" % (oracle, total["fail_counts"][(oracle, kid)], mres["detail"][:300]))
             lines.append("  minimised case: %s" % json.dumps(ceng.describe(mcase), sort_keys=True)[:1500])
         else:
-            lines.append("HARNESS-ERROR: minimised replay %s did not reproduce in a fresh process (rc=%s)" % (path, rc))
-            exit_code = max(exit_code, 2)
+            # the minimised case depends on something of the parent process's history: fall back to the case as it
+            # was found (with its prelude), which is confirmed the same way
+            path0 = write_replay(prop, f, comp, res0, seed, 0, False)
+            rc0, _out0 = confirm_in_fresh_process(path0)
+            if rc0 == 1:
+                violations.append({"oracle": oracle, "known": kid, "replay": path0, "count": total["fail_counts"][(oracle, kid)],
+                                   "detail": res0["detail"], "case": ceng.describe(comp), "minimised": False})
+                lines.append("VIOLATION property=%s replay=%s" % (prop, path0))
+                lines.append("  oracle=%s runs_failing=%d detail=%s" % (oracle, total["fail_counts"][(oracle, kid)], res0["detail"][:300]))
+                lines.append("  (not minimised: the minimised case did not reproduce in a fresh process)")
+            else:
+                lines.append("HARNESS-ERROR: neither the minimised replay %s nor the unminimised one reproduced in a fresh "
+                             "process (rc=%s/%s)" % (path, rc, rc0))
+                exit_code = max(exit_code, 2)
 
     det = {"checked": 0, "diverged": 0}
     if selfcheck:
